@@ -875,14 +875,14 @@ def run(ctx: Ctx) -> None:
                 "universe (quick: depth <= 1, thorough: depth <= 2 plus six depth-3 nestings) exported by TLC from MC_TypeCompat with the verdict "
                 "yes/no/either, plus seeded random pairs of depth <= 3 decided by TLC through a generated ad-hoc module; "
                 "non-trivial = the two annotations differ, both exist and the required one is not Any. "
-                "pipeline case = (shape, annotations on its edges, validate flag, style) for 156 shapes of 2-3 functions (12 with "
+                "pipeline case = (shape, annotations on its edges, validate flag, style) for 120 shapes of 2-3 functions (12 with "
                 "listed edges, 8 NAMED ones whose edges TLC derives from declared output names + rename steps [renames=, "
                 "update_renames, update_scope, swap] and from the user-written MapSpecs of both functions, 43 SIBLING ones "
                 "whose consumer takes two array inputs -- outputs of two mapped producers, two outputs of one producer, an "
                 "output next to a pipeline input -- in every writable combination of access modes [indexed / sliced on either "
-                "axis / fully sliced / no entry], the pair under test on either input; 93 SUPPLY ones whose consumer parameter "
+                "axis / fully sliced / no entry], the pair under test on either input; 57 SUPPLY ones whose consumer parameter "
                 "under test [7 ways: nothing / signature default / defaults= / update_defaults / Pipeline.update_defaults / "
-                "bound= / update_bound] and other parameter [nothing / defaults= / bound=] can get a value otherwise, over a "
+                "bound= / update_bound] and/or other parameter [nothing / defaults= / bound=] can get a value otherwise, over a "
                 "direct / element-wise / reduced / partially reduced / two-output edge); "
                 "non-trivial = validation on and some checked edge joins two different explicit annotations")
     ctx.assumptions = [
